@@ -24,6 +24,10 @@ def lcd_map(dg, first_line, n, rot):
         ms = frozenset((nd.line_number - first_line - 1 + rot) % n for nd, _ in v["dependencies"])
         lat = round(float(v["latency"]), 9)
         out.setdefault(ms, []).append(lat)
+    for ms, lats in out.items():
+        if len(lats) > 1:
+            raise Violation("lcd-duplicate", "the same cycle (same member instructions) is reported %d times" %
+                            len(lats), sorted(ms), None)
     return {k: sorted(v) for k, v in out.items()}
 
 
